@@ -157,6 +157,11 @@ def Ctx.init (ctx : Ctx) : SEnv := fun v =>
   else if v = .index then ctx.index.bind (fun i => if i < 2 ^ 64 then some (.int .usize (constV 64 i)) else none)
   else none
 
+/-- at every position at most one of the two lists is not the constant `0` (then `+` cannot carry: it is `|`) -/
+def disjointL : List Src → List Src → Bool
+  | x :: xs, y :: ys => (x == .c false || y == .c false) && disjointL xs ys
+  | _, _ => true
+
 def mkInt (t : ITy) (l : List Src) : Option SRes :=
   if noTop l then some (.ok (.int t l)) else none
 
@@ -178,7 +183,7 @@ def binS (op : BinOp) (x y : SVal) : Option SRes :=
       if t ≠ t' ∨ t.signed then none else
       match isConst a, isConst b with
       | some x, some y => if x + y < 2 ^ t.bits then some (.ok (.int t (constV t.bits (x + y)))) else none
-      | _, _ => none
+      | _, _ => if disjointL a b then mkInt t (List.zipWith Src.or a b) else none
   | .sub, .int t a, .int t' b =>
       if t ≠ t' ∨ t.signed then none else
       match isConst a, isConst b with
